@@ -174,6 +174,10 @@ type server struct {
 	status   int32        //server status
 	// clients stores the  online clients
 	clients map[string]*client
+	// conns holds every accepted connection until its serve goroutine has returned,
+	// including the ones that have not completed CONNECT yet (they are not in clients)
+	connsMu sync.Mutex
+	conns   map[*client]struct{}
 	// offlineClients store the expired time of all disconnected clients
 	// with valid session(not expired). Key by clientID
 	offlineClients  map[string]time.Time
@@ -877,6 +881,7 @@ func defaultServer() *server {
 		exitChan:       make(chan struct{}),
 		exitedChan:     make(chan struct{}),
 		clients:        make(map[string]*client),
+		conns:          newConnSet(),
 		offlineClients: make(map[string]time.Time),
 		willMessage:    make(map[string]*willMsg),
 		retainedDB:     retained_trie.NewStore(),
@@ -1121,6 +1126,10 @@ func (srv *server) serveWebSocket(ws *WsServer) {
 	}
 }
 
+func newConnSet() map[*client]struct{} {
+	return make(map[*client]struct{})
+}
+
 func (srv *server) newClient(c net.Conn) (*client, error) {
 	srv.configMu.Lock()
 	cfg := srv.config
@@ -1156,6 +1165,20 @@ func (srv *server) newClient(c net.Conn) (*client, error) {
 		cli:      client,
 	}
 	client.setConnecting()
+	// Stop closes what it finds in conns: a connection that arrives later must not slip through
+	srv.connsMu.Lock()
+	select {
+	case <-srv.exitChan:
+		srv.connsMu.Unlock()
+		_ = c.Close()
+		return nil, errors.New("server is stopping")
+	default:
+	}
+	if srv.conns == nil {
+		srv.conns = newConnSet()
+	}
+	srv.conns[client] = struct{}{}
+	srv.connsMu.Unlock()
 
 	return client, nil
 }
@@ -1567,6 +1590,13 @@ func (srv *server) Stop(ctx context.Context) error {
 			c.Close()
 		}
 		srv.mu.Unlock()
+		// ... and the connections that have not completed CONNECT (or whose CONNECT was refused)
+		srv.connsMu.Lock()
+		for c := range srv.conns {
+			chs = append(chs, c.closed)
+			c.Close()
+		}
+		srv.connsMu.Unlock()
 		verifYield("stop.closed_clients")
 
 		done := make(chan struct{})
